@@ -1,6 +1,7 @@
 package c07
 
 import (
+	"bytes"
 	"fmt"
 	"strings"
 
@@ -9,13 +10,17 @@ import (
 	"github.com/voedger/voedger/pkg/istorage"
 )
 
-// schedCase: one writer running a program of writes on one key (Put v | Ins v | Del) and readers
+// bigLen: length of the value a "putbig:N" writes (70000 times the byte N): its cache entry does not
+// fit a fastcache chunk. In the model's terms the value is the number 256+N.
+const bigLen = 70000
+
+// schedCase: one writer running a program of writes on one key (Put v | Ins v | Del | PutBig v) and readers
 // running Get / TTLGet over the real cache in front of mem; Sched is the interleaving, one entry
 // per model step.  Init < 0 means the key is absent at the start.
 type schedCase struct {
 	Kind    string     `json:"kind"` // "sched"
 	Init    int        `json:"init"`
-	Prog    []string   `json:"prog"`    // "put:3" "ins:1" "del"
+	Prog    []string   `json:"prog"`    // "put:3" "ins:1" "del" "putbig:7"
 	Readers [][]string `json:"readers"` // "get" | "ttlget"
 	Sched   []string   `json:"sched"`   // "W" | "R0" | "R1" ...
 	Obs     []string   `json:"observed,omitempty"`
@@ -84,27 +89,31 @@ func runSched(sc *schedCase) (kit.Case, error) {
 	last := map[string]int{} // last read result per reader (-1 = not found)
 	var werr error
 	procs["W"] = sched.Go("W", func(p *kit.Proc) {
-		cur := sc.Init
+		cur := []byte{byte(sc.Init)}
 		for i, w := range sc.Prog {
 			var v int
 			switch {
+			case strings.HasPrefix(w, "putbig:"):
+				fmt.Sscanf(w, "putbig:%d", &v)
+				cur = bytes.Repeat([]byte{byte(v)}, bigLen)
+				werr = cached.Put(schedPK, schedCC, bytes.Clone(cur))
 			case strings.HasPrefix(w, "put:"):
 				fmt.Sscanf(w, "put:%d", &v)
 				werr = cached.Put(schedPK, schedCC, []byte{byte(v)})
-				cur = v
+				cur = []byte{byte(v)}
 			case strings.HasPrefix(w, "ins:"):
 				fmt.Sscanf(w, "ins:%d", &v)
 				ok, e := cached.InsertIfNotExists(schedPK, schedCC, []byte{byte(v)}, 0)
 				if e != nil || !ok {
 					werr = fmt.Errorf("insert refused (%v, %v): the program must only contain writes that succeed", ok, e)
 				}
-				cur = v
+				cur = []byte{byte(v)}
 			case w == "del":
-				ok, e := cached.CompareAndDelete(schedPK, schedCC, []byte{byte(cur)})
+				ok, e := cached.CompareAndDelete(schedPK, schedCC, bytes.Clone(cur))
 				if e != nil || !ok {
 					werr = fmt.Errorf("delete refused (%v, %v)", ok, e)
 				}
-				cur = -1
+				cur = nil
 			}
 			if i < len(sc.Prog)-1 {
 				p.Yield("op")
@@ -131,6 +140,8 @@ func runSched(sc *schedCase) (kit.Case, error) {
 					last[name] = -1
 				case len(data) == 1:
 					last[name] = int(data[0])
+				case len(data) == bigLen && bytes.Equal(data, bytes.Repeat(data[:1], bigLen)):
+					last[name] = 256 + int(data[0])
 				default:
 					last[name] = -2
 				}
@@ -218,10 +229,14 @@ func runSched(sc *schedCase) (kit.Case, error) {
 		return kit.Case{}, werr
 	}
 	prog := make([]string, len(sc.Prog))
-	hasDel := false
+	hasDel, hasBig := false, false
 	for i, w := range sc.Prog {
 		var v int
 		switch {
+		case strings.HasPrefix(w, "putbig:"):
+			fmt.Sscanf(w, "putbig:%d", &v)
+			prog[i] = fmt.Sprintf("WPutBig %d", v)
+			hasBig = true
 		case strings.HasPrefix(w, "put:"):
 			fmt.Sscanf(w, "put:%d", &v)
 			prog[i] = fmt.Sprintf("WPut %d", v)
@@ -249,6 +264,9 @@ func runSched(sc *schedCase) (kit.Case, error) {
 	tags := []string{"sched", fmt.Sprintf("readers:%d", len(sc.Readers))}
 	if hasDel {
 		tags = append(tags, "delete-in-writer-program")
+	}
+	if hasBig {
+		tags = append(tags, "big-value-in-writer-program")
 	}
 	if sc.Init < 0 {
 		tags = append(tags, "init:absent")
@@ -280,7 +298,8 @@ func lastStepOf(ps, obs []string, who string) string {
 // genSchedule draws an interleaving while tracking the abstract control state of the model
 // (who is between which steps, whether the key is cached) so that every entry is a possible step
 func genSchedule(r *kit.Rng, sc *schedCase) []string {
-	cached := false
+	cached := false   // an entry a reader can answer from
+	storeBig := false // the row in the storage is a big value (its entry would be the mark)
 	wLeft, wMid, wPre := len(sc.Prog), false, false
 	wi := 0
 	type rs struct {
@@ -320,8 +339,9 @@ func genSchedule(r *kit.Rng, sc *schedCase) []string {
 			wPre = false
 			if wMid {
 				wMid = false
-				cached = true // a delete leaves a "not found" entry
+				cached = !storeBig // a delete leaves a "not found" entry; a big value leaves the mark: readers go to the storage
 			} else {
+				storeBig = strings.HasPrefix(sc.Prog[wi], "putbig:")
 				wLeft--
 				wi++
 				wMid = true
@@ -345,7 +365,7 @@ func genSchedule(r *kit.Rng, sc *schedCase) []string {
 			x.pc = 0
 			// a fill makes the key cached unless it is a TTLGet that found the row; whether it found
 			// it is not tracked here: assume "maybe cached" conservatively by re-checking on the next step
-			cached = cached || x.op == "get"
+			cached = cached || (x.op == "get" && !storeBig)
 		}
 	}
 }
